@@ -708,6 +708,35 @@ func (c *Conn) Closed() bool {
 	return c.closed
 }
 
+// Counts returns the number of Read, Write and Close calls so far.
+func (c *Conn) Counts() (reads, writes, closes int) {
+	c.mu.Lock()
+	defer c.mu.Unlock()
+	return c.NRead, c.NWrite, c.CloseCalls
+}
+
+// FailAt arms the per-operation failures (1-based call indices, 0 = leave as is).
+func (c *Conn) FailAt(read, write, writeOnly int) {
+	c.mu.Lock()
+	defer c.mu.Unlock()
+	if read != 0 {
+		c.FailReadAt = read
+	}
+	if write != 0 {
+		c.FailWriteAt = write
+	}
+	if writeOnly != 0 {
+		c.FailWriteOnlyAt = writeOnly
+	}
+}
+
+// FailNextWrite makes the next Write call fail.
+func (c *Conn) FailNextWrite() {
+	c.mu.Lock()
+	defer c.mu.Unlock()
+	c.FailWriteAt = c.NWrite + 1
+}
+
 // WriteBroken reports an injected failure of the sending direction only.
 func (c *Conn) WriteBroken() bool {
 	c.mu.Lock()
